@@ -582,12 +582,18 @@ impl<'r, 'c, 's, W: Write> DatumSerializer<'r, 'c, 's, W> {
 						)
 					})?;
 				let bytes = n.to_be_bytes();
+				// Leading bytes that are pure sign extension can be dropped without altering
+				// the two's-complement number
+				let sign_extension_byte: u8 = if n < 0 { 0xFF } else { 0x00 };
+				let mut start = 0;
+				while start < bytes.len() - 1
+					&& bytes[start] == sign_extension_byte
+					&& (bytes[start + 1] & 0x80) == (sign_extension_byte & 0x80)
+				{
+					start += 1;
+				}
 				let buf = match decimal.repr {
 					DecimalRepr::Bytes => {
-						let mut start = 0;
-						while start < bytes.len() - 1 && bytes[start] == 0 {
-							start += 1;
-						}
 						let buf = &bytes[start..];
 						self.state
 							.writer
@@ -600,10 +606,19 @@ impl<'r, 'c, 's, W: Write> DatumSerializer<'r, 'c, 's, W> {
 						buf
 					}
 					DecimalRepr::Fixed(ref fixed) => {
-						let start = bytes.len().checked_sub(fixed.size).ok_or_else(|| {
+						let fixed_start = bytes.len().checked_sub(fixed.size).ok_or_else(|| {
 							SerError::custom("Decimals of size larger than 16 are not supported")
 						})?;
-						&bytes[start..]
+						// (a zero-sized fixed can only represent zero)
+						if fixed_start > start && !(fixed.size == 0 && n == 0) {
+							return Err(SerError::custom(format_args!(
+								"Integer to be encoded as decimal does not fit in `fixed` field size \
+									(fixed size: {}, required: {})",
+								fixed.size,
+								bytes.len() - start
+							)));
+						}
+						&bytes[fixed_start..]
 					}
 				};
 				self.state.writer.write_all(buf).map_err(SerError::io)
